@@ -29,6 +29,7 @@ RULE = ('table zoo (d=2..4(6), 6 correlation designs, marginal mixes, constant c
 ASSUMPTIONS = ['ridge decision may go either way when 1e15 <= cond(reference) <= 1e17 (cond itself is ill-conditioned there)']
 
 EPS = A.EPS32
+FORCED_MLE_CONFIGS = ('truncated-class', 'beta-class', 'gamma-class')
 
 
 def bounds(tier):
@@ -121,6 +122,12 @@ def run_case(case):
     # which columns are constant is a fact about the TRAINING DATA (a non-constant column whose fitted marginal maps
     # every value to the same score would otherwise excuse a zero row)
     const = [bool(df[c].nunique() == 1) for c in cols]
+    if cfg in FORCED_MLE_CONFIGS:
+        # a scipy-MLE family forced onto data of another family can come back as a degenerate fit whose CDF maps every
+        # observation to the same clipped score; the Pearson correlation of such a column is 0/0 and the documented NaN -> 0
+        # rule applies (measured: BetaUnivariate forced on a normal column). Where the library chooses or always can fit the
+        # marginal (default selection, Gaussian, Uniform, KDE) identical scores of a non-constant column remain a violation.
+        const = [a or b for a, b in zip(const, const_scores)]
     r.ev(d * d)
     ridge = EPS * np.eye(d)
     e_plain = float(np.max(np.abs(M - Rref)))
